@@ -205,6 +205,13 @@ def check_case(ctx, fails, case, tr, small_exprs, small_refs):
                 bad += 1
         if bad:
             ctx.broken_ties.append('correspondence: float evaluation of the translated TMLE update lines differs from the probe on %d rows' % bad)
+    # (3b) "the observed outcome range" is what the unit-interval map is anchored at: the smallest and largest recorded outcome
+    if not binary:
+        rawy = np.asarray(df['Y'], dtype=float)
+        omin, omax = float(np.nanmin(rawy)), float(np.nanmax(rawy))
+        if abs(float(tm._continuous_min) - omin) > 1e-12 * max(1.0, abs(omin)) or abs(float(tm._continuous_max) - omax) > 1e-12 * max(1.0, abs(omax)):
+            fails.append((n, 'TMLE.range.anchors', 'continuous outcome observed in [%r, %r] but the estimator maps it to the unit interval with '
+                          'minimum %r and maximum %r' % (omin, omax, float(tm._continuous_min), float(tm._continuous_max)), payload))
     # (5b) the translated unit-interval map reproduces the outcome column the estimator works on
     if tr and not binary and 'tmle_unit_bounds' in tr:
         raw = np.asarray(df['Y'], dtype=float)[np.asarray(tm.df['index'])] if 'index' in tm.df.columns else None
